@@ -165,16 +165,16 @@ def sort(t):
     elif isinstance(t, Val):
         assert t.fields is not None, "shape of %s not declared" % t.name
         d = z3.Datatype(_mangle(k))
-        d.declare("mk", *[(fn, sort(ft)) for fn, ft in t.fields.items()])
+        d.declare("mk_" + _mangle(k), *[(_mangle(k) + "_" + fn, sort(ft)) for fn, ft in t.fields.items()])
         s = d.create()
     elif isinstance(t, Tup):
         d = z3.Datatype(_mangle(k))
-        d.declare("mk", *[("e%d" % i, sort(e)) for i, e in enumerate(t.elems)])
+        d.declare("mk_" + _mangle(k), *[(_mangle(k) + "_e%d" % i, sort(e)) for i, e in enumerate(t.elems)])
         s = d.create()
     elif isinstance(t, Opt):
         d = z3.Datatype(_mangle(k))
-        d.declare("none")
-        d.declare("some", ("v", sort(t.inner)))
+        d.declare("none_" + _mangle(k))
+        d.declare("some_" + _mangle(k), (_mangle(k) + "_v", sort(t.inner)))
         s = d.create()
     else:
         raise TypeError(t)
